@@ -80,11 +80,11 @@ fn qopt<const N: usize>(what: &str, got: impl Opt<Int<N>>, want: &BigInt) -> Cas
     let fits = fits_signed(want, N);
     match got.opt() {
         Some(v) => {
-            vensure!(fits, "{what}: returned some({:#x}) although the exact quotient {want:#x} does not fit", ibig(&v));
+            vensure!(fits, "{what}: returned some({:#x}) although the exact value {want:#x} does not fit", ibig(&v));
             ieq(what, &v, want)
         }
         None => {
-            vensure!(!fits, "{what}: returned none although the exact quotient {want:#x} fits");
+            vensure!(!fits, "{what}: returned none although the exact value {want:#x} fits");
             Ok(())
         }
     }
@@ -515,24 +515,24 @@ fn udiv_mixed<const L: usize, const R: usize>(t: &mut Tape, c: &mut Case) -> Cas
 
 macro_rules! eq_widths {
     ($v:ident, $q:expr; $($n:literal),*) => { $(
-        $v.push(SubCheck::new(format!("int-divisor/all-forms/I{}", 64*$n), $q, sdiv_eq::<$n>).tape(40 + 10 * $n));
-        $v.push(SubCheck::new(format!("uint-divisor/all-forms/I{}", 64*$n), $q, udiv_eq::<$n>).tape(40 + 10 * $n));
+        $v.push(SubCheck::new(format!("int-divisor/all-forms/I{}", 64*$n), $q, sdiv_eq::<$n>).tape(40 + 10 * $n).thorough(15));
+        $v.push(SubCheck::new(format!("uint-divisor/all-forms/I{}", 64*$n), $q, udiv_eq::<$n>).tape(40 + 10 * $n).thorough(15));
     )* };
 }
 macro_rules! mixed_widths {
     ($v:ident, $q:expr; $(($l:literal, $r:literal)),*) => { $(
-        $v.push(SubCheck::new(format!("int-divisor/vartime-mixed/I{}-by-I{}", 64*$l, 64*$r), $q, sdiv_mixed::<$l, $r>).tape(40 + 6 * ($l + $r)));
-        $v.push(SubCheck::new(format!("uint-divisor/vartime-mixed/I{}-by-U{}", 64*$l, 64*$r), $q, udiv_mixed::<$l, $r>).tape(40 + 6 * ($l + $r)));
+        $v.push(SubCheck::new(format!("int-divisor/vartime-mixed/I{}-by-I{}", 64*$l, 64*$r), $q, sdiv_mixed::<$l, $r>).tape(40 + 6 * ($l + $r)).thorough(15));
+        $v.push(SubCheck::new(format!("uint-divisor/vartime-mixed/I{}-by-U{}", 64*$l, 64*$r), $q, udiv_mixed::<$l, $r>).tape(40 + 6 * ($l + $r)).thorough(15));
     )* };
 }
 
 fn subchecks(ctx: &Ctx) -> Vec<SubCheck> {
     let mut v = vec![];
-    eq_widths!(v, 500000; 1, 2);
-    eq_widths!(v, 350000; 4);
-    eq_widths!(v, 200000; 8);
-    mixed_widths!(v, 200000; (1, 2), (2, 1), (2, 4), (4, 2), (1, 4), (4, 1));
-    mixed_widths!(v, 120000; (4, 8), (8, 4), (1, 8), (8, 1), (2, 8), (8, 2));
+    eq_widths!(v, 300000; 1, 2);
+    eq_widths!(v, 200000; 4);
+    eq_widths!(v, 120000; 8);
+    mixed_widths!(v, 120000; (1, 2), (2, 1), (2, 4), (4, 2), (1, 4), (4, 1));
+    mixed_widths!(v, 70000; (4, 8), (8, 4), (1, 8), (8, 1), (2, 8), (8, 2));
     if ctx.thorough() {
         eq_widths!(v, 8000; 3, 16);
         mixed_widths!(v, 5000; (3, 2), (2, 3), (16, 8), (8, 16), (16, 1), (1, 16));
